@@ -197,7 +197,7 @@ func (w *treeWorld) checkOps(what string, ops part.Ops[int], m map[string]int, n
 	}
 	for i := 0; i < n; i++ {
 		q := w.queryKey()
-		switch c.Choose(4) {
+		switch c.Choose(5) {
 		case 0:
 			v, _, ok := ops.Get(kb(q))
 			mv, mok := m[q]
@@ -216,6 +216,22 @@ func (w *treeWorld) checkOps(what string, ops part.Ops[int], m map[string]int, n
 			got := drain(ops.LowerBound(kb(q)))
 			if want := mLower(m, q); !sameKVs(got, want) {
 				w.r.Violate("C11", "lowerbound", "%s: LowerBound(%q)=%s want %s", what, q, fmtKVs(got), fmtKVs(want))
+				return false
+			}
+		case 4:
+			var all func(yield func([]byte, int) bool)
+			switch o := ops.(type) {
+			case *part.Tree[int]:
+				all = o.All
+			case *part.Txn[int]:
+				all = o.All
+			default:
+				continue
+			}
+			var got []kv
+			all(func(k []byte, v int) bool { got = append(got, kv{string(k), v}); return true })
+			if want := sortedKVs(m); !sameKVs(got, want) {
+				w.r.Violate("C11", "all", "%s: All()=%s want %s", what, fmtKVs(got), fmtKVs(want))
 				return false
 			}
 		case 3:
@@ -292,6 +308,10 @@ func (w *treeWorld) pollWatches(step string) bool {
 		must, anyChange := chainChanged(tw.origin, match)
 		if tw.fromTxn && tw.selfAny {
 			anyChange = true
+			if tw.kind == wRoot {
+				// Txn.RootWatch is the root channel of the tree the transaction started from
+				must = true
+			}
 		}
 		kind := [...]string{"root", "Get", "Prefix", "InsertWatch"}[tw.kind]
 		if tw.fromTxn {
@@ -692,7 +712,11 @@ func (w *treeWorld) txnOp(tx *treeTxn) bool {
 		q := w.queryKey()
 		var ch <-chan struct{}
 		kind := wGet
-		if c.Choose(3) == 0 {
+		if sel := c.Choose(7); sel == 0 {
+			kind = wRoot
+			q = ""
+			ch = tx.txn.RootWatch()
+		} else if sel <= 2 {
 			kind = wPrefix
 			_, ch = tx.txn.Prefix(kb(q))
 		} else {
